@@ -254,8 +254,13 @@ func (ir IntervalRule) Standard(t time.Time) time.Time {
 		bucketIdx := floorDiv(days, int64(ir.Num))
 		return time.Date(1970, 1, 1+int(bucketIdx)*ir.Num, 0, 0, 0, 0, t.Location())
 	case HOUR:
-		todayHour := time.Date(t.Year(), t.Month(), t.Day(), t.Hour(), 0, 0, 0, t.Location())
-		hours := floorDiv(int64(todayHour.Sub(epochLocal)), int64(time.Hour))
+		// Count wall-clock hours (local days * 24 + local hour), because the
+		// start is rebuilt below with time.Date, which also counts wall-clock
+		// hours. Absolute hours differ from them by the change of the zone's
+		// UTC offset since 1970-01-01 and would shift the bucket off t.
+		todayMidnight := time.Date(t.Year(), t.Month(), t.Day(), 0, 0, 0, 0, t.Location())
+		days := floorDiv(int64(todayMidnight.Sub(epochLocal).Hours()+12), 24)
+		hours := days*24 + int64(t.Hour())
 		bucketIdx := floorDiv(hours, int64(ir.Num))
 		return time.Date(1970, 1, 1, int(bucketIdx)*ir.Num, 0, 0, 0, t.Location())
 	}
